@@ -15,7 +15,9 @@ EXPLANATION = (
     "enum, each result variant the broker can construct is accepted by the client's handler of that reply, or is listed with the client-side precondition "
     "that excludes it; (R3) fair select: in both select loops next() is one full cycle over all sources, the poll loop runs exactly |sources| rounds, the "
     "flush source is polled only when a flush is pending, and every successful transport send is followed by flush_transport = true (or an explicit flush) "
-    "before control returns to the select loop; (R4) version gates agree (shared with C12-R2). NOT decided: absence of deadlock or lost wake-ups, "
+    "before control returns to the select loop; (R4) version gates agree (shared with C12-R2); (R6) the proxy multiplexer's forwarding decisions in quantifier normal form; (R7) every request is "
+    "answered: no accepting path of a broker request handler bypasses the send of its reply unless the requester is gone or gave no serial (QueryIntrospection may "
+    "instead be recorded as pending under its serial, to be answered when the queried connection replies). NOT decided: absence of deadlock or lost wake-ups, "
     "bounded-FIFO behaviour, result consistency under schedules."
 )
 
@@ -43,6 +45,32 @@ def run(rep):
 
     # ---- R6 drop-driven proxy requests match what the client registered --------------------------
     proxyq.check(rep, prog, "C06-R6")
+
+    # ---- R7 every request is answered: no accepting path of a request handler bypasses its reply ----
+    n7 = 0
+    for kind, hs in sorted((bd or {}).items()):
+        for h in hs:
+            b = M.get(h)
+            if b is None:
+                continue
+            want = "CreateServiceReply" if kind == "CreateService2" else kind + "Reply"
+            if kind.endswith("Reply"):
+                continue
+            ss = [s_ for s_ in broker.sends(b) if s_.msg_type == want]
+            if not ss:
+                continue
+            n7 += 1
+            sinks = set(s_.bb for s_ in ss)
+            # deferral: the request is forwarded to the connection that can answer it (QueryIntrospection); the reply
+            # is then produced by the handler of that connection's reply; the deferral is the add_pending(id, req.serial) record
+            if kind == "QueryIntrospection":
+                sinks |= set(c.bb for c in b.calls if c.name == "add_pending" and any(re.search(r"req\.serial", x) for a in c.args for x in b.describe(a)))
+            cut = b.edges_matching([r"^None=discr\(self\.conns\[id\]\)$", r"^None=discr\(req\.serial\)$"])
+            reach = b.reachable(0, without_nodes=sinks, without_edges=cut)
+            bad = [o for o in proto.ok_exit_blocks(b) if o in reach]
+            rep.check(not bad, "C06-R7", b.def_, "request-is-answered:%s" % kind, "the handler of %s can return Ok without having sent %s (the requester is present and gave a serial): the client operation awaiting it never completes" % (kind, want),
+                      line=b.span, detail={"reply_sites": len(ss), "requester-gone / no-serial edges": len(cut)})
+    rep.floor("C06-R7", "request kinds with a reply", n7, 20)
 
     # ---- R1 direction tables -----------------------------------------------------------------------
     rep.check(bd is not None and not binfo["wildcard"] and len(bd) >= 63, "C06-R1", bhm.def_, "broker-dispatch-exhaustive", "the broker's dispatch must name all message kinds without wildcard", detail={"kinds": len(bd or {})})
